@@ -67,6 +67,13 @@ static int check(const uint8_t *s, int len, int verbose) {
     hx_in_lib = 0;
     if (nrc != HTP_OK) { viol("normalize_failed", "htp_normalize_parsed_uri failed"); bad = 1; }
     else {
+        /* the raw components are "unmodified": deriving the normalised URI must leave them as they were (tx->parsed_uri_raw is this very structure
+         * when a request goes through the connection parser) */
+        static hx_buf r2; hb_reset(&r2);
+        if (u->scheme) { app(&r2, u->scheme); hb_putc(&r2, ':'); }
+        if (auth) { hb_puts(&r2, "//"); if (u->username) app(&r2, u->username); if (u->password) { hb_putc(&r2, ':'); app(&r2, u->password); } if (u->username || u->password) hb_putc(&r2, '@'); app(&r2, u->hostname); if (u->port) { hb_putc(&r2, ':'); app(&r2, u->port); } }
+        app(&r2, u->path); if (u->query) { hb_putc(&r2, '?'); app(&r2, u->query); } if (u->fragment) { hb_putc(&r2, '#'); app(&r2, u->fragment); }
+        if (r2.n != r.n || (r.n && memcmp(r2.p, r.p, r.n))) { static hx_buf e2; hb_reset(&e2); hb_esc(&e2, r2.p, r2.n); hb_term(&e2); char m2[300]; snprintf(m2, sizeof m2, "the raw components changed while the normalised URI was derived: they now re-join to \"%s\"", (char *) e2.p); viol("raw_modified", m2); bad = 1; }
         long want = -1; int invalid = 0;
         if (u->port) {
             const uint8_t *p = bstr_ptr(u->port); size_t n = bstr_len(u->port), a = 0, b = n;
